@@ -149,11 +149,11 @@ Qed.
 
 Lemma failed_open_detached mbuf mac c n k :
   fst (open_detached stream ota mbuf mac c n k) = Err ->
+  snd (open_detached stream ota mbuf mac c n k) = mbuf \/
   snd (open_detached stream ota mbuf mac c n k) = zeros (length c) ++ skipn (length c) mbuf.
 Proof.
-  unfold open_detached. destruct (Nat.ltb_spec (length mbuf) (length c)); cbn [fst snd]; [discriminate|].
-  destruct (open_detached_inplace stream ota c mac n k) as [[[]| |] b]; cbn [fst snd];
-    try discriminate; reflexivity.
+  unfold open_detached. destruct (Nat.ltb_spec (length mbuf) (length c)) as [Hlt|Hge]; cbn [fst snd]; [now left|].
+  destruct (open_detached_inplace stream ota c mac n k) as [[[]| |] b]; cbn [fst snd]; intros Hf; try discriminate; right; reflexivity.
 Qed.
 
 (* the verdict of open_detached depends on the authenticator, the ciphertext, the nonce and the key only -- not on what
@@ -173,7 +173,7 @@ Lemma failed_open_easy mbuf c n k :
   snd (open_easy stream ota mbuf c n k) = zeros (length c - 16) ++ skipn (length c - 16) mbuf.
 Proof.
   unfold open_easy, MACBYTES. destruct (Nat.ltb_spec (length c) 16) as [_|_]; cbn [fst snd]; [now left|].
-  intros H. right. rewrite (failed_open_detached _ _ _ _ _ H). now rewrite skipn_length.
+  intros H. destruct (failed_open_detached _ _ _ _ _ H) as [E|E]; [now left|right]. rewrite E. now rewrite skipn_length.
 Qed.
 
 Lemma failed_open_easy_inplace cbuf n k :
@@ -190,14 +190,13 @@ Proof.
     rewrite E in Hf. cbn [fst] in Hf. specialize (Hf ltac:(discriminate)). discriminate.
 Qed.
 
-(* --- C04: with an output buffer of sufficient size no open panics ------- *)
+(* --- C04: no open panics, whatever the sizes of the ciphertext and of the caller's buffer --- *)
 
-Lemma open_easy_total mbuf c n k :
-  (length c - 16 <= length mbuf)%nat -> fst (open_easy stream ota mbuf c n k) <> Panic.
+Lemma open_easy_total mbuf c n k : fst (open_easy stream ota mbuf c n k) <> Panic.
 Proof.
-  intros H. unfold open_easy, MACBYTES. destruct (Nat.ltb_spec (length c) 16); cbn [fst]; [discriminate|].
+  unfold open_easy, MACBYTES. destruct (Nat.ltb_spec (length c) 16); cbn [fst]; [discriminate|].
   unfold open_detached. rewrite skipn_length.
-  destruct (Nat.ltb_spec (length mbuf) (length c - 16)); [lia|].
+  destruct (Nat.ltb_spec (length mbuf) (length c - 16)); cbn [fst]; [discriminate|].
   destruct (open_detached_inplace stream ota _ _ n k) as [[[]| |] b]; cbn [fst]; discriminate.
 Qed.
 
@@ -302,6 +301,7 @@ Lemma sb_failed_open_detached_inplace data mac n k :
 Proof. revert data mac n k. inst_sb failed_open_detached_inplace. Qed.
 Lemma sb_failed_open_detached mbuf mac c n k :
   fst (open_detached_c mbuf mac c n k) = Err ->
+  snd (open_detached_c mbuf mac c n k) = mbuf \/
   snd (open_detached_c mbuf mac c n k) = zeros (length c) ++ skipn (length c) mbuf.
 Proof. revert mbuf mac c n k. inst_sb failed_open_detached. Qed.
 Lemma sb_open_detached_verdict mbuf mac c n k : (length c <= length mbuf)%nat ->
@@ -315,8 +315,7 @@ Proof. revert mbuf c n k. inst_sb failed_open_easy. Qed.
 Lemma sb_failed_open_easy_inplace cbuf n k :
   fst (open_easy_inplace_c cbuf n k) = Err -> snd (open_easy_inplace_c cbuf n k) = cbuf.
 Proof. revert cbuf n k. inst_sb failed_open_easy_inplace. Qed.
-Lemma sb_open_easy_total mbuf c n k :
-  (length c - 16 <= length mbuf)%nat -> fst (open_easy_c mbuf c n k) <> Panic.
+Lemma sb_open_easy_total mbuf c n k : fst (open_easy_c mbuf c n k) <> Panic.
 Proof. revert mbuf c n k. inst_sb open_easy_total. Qed.
 Lemma sb_open_easy_inplace_total cbuf n k : fst (open_easy_inplace_c cbuf n k) <> Panic.
 Proof. revert cbuf n k. inst_sb open_easy_inplace_total. Qed.
